@@ -271,7 +271,8 @@ def follow (C : FCtx K) (op : FollowOp K) (x : PObj K) : Except Err (Res K) :=
     | .error err => .error err
     | .ok u1 =>
       viaDispatch C x f [x.operand, .unyt .quantity ⟨u1, reprOf u1⟩ { shape := [], allZero := v == 0 }]
-        fun o a => (a + (match o.factor with | some k => v * k | none => v)) * o.mul
+        fun o a => ((match o.factorFirst with | some k => a * k | none => a)
+                      + (match o.factor with | some k => v * k | none => v)) * o.mul
   | .binarySelf f =>
     viaDispatch C x f [x.operand, x.operand] fun o a => (a + a) * o.mul
   | .mulUnit e =>
